@@ -214,8 +214,10 @@ func insertMethod(class, super slip.Class, method *slip.Method, combo *slip.Comb
 	if pos < len(m.Combinations) && m.Combinations[pos].From == class {
 		pos++
 	}
+	// Skip the combinations from classes that precede super in the
+	// precedence order of the class.
 	for _, f := range class.InheritsList() {
-		if len(m.Combinations) <= pos || m.Combinations[pos].From == super {
+		if len(m.Combinations) <= pos || f == super {
 			break
 		}
 		if m.Combinations[pos].From == f {
